@@ -108,7 +108,7 @@ def gen(chk):
     cases.append(('"before".p\nr := 1.^f3(t(1), t(2))\n"after".p\n', "before\n1\n2\nafter\n", "varcall-args"))
     cases.append(('"before".p\nr := [1, 2]@^idf(t(1))\n"after".p\n', "before\n1\nafter\n", "varcall-args"))
     rng.setstate(st)
-    n = 300 if chk.tier == "quick" else 3000
+    n = 300 if chk.tier == "quick" else 8000
     for _ in range(n):
         ctr = c07.Counter()
         text, holes = c07.build(rng, rng.randint(1, 3), ctr)
